@@ -1,7 +1,7 @@
 (* C18: lemmas about the text-encoder specs (fmt_int canonical form, dec2f64 sanity) and soundness of the per-sample checkers of
    model/Check18.v (a VOk verdict implies the stated relation between the input and every native output). *)
 From Coq Require Import ZArith List Bool Lia.
-From DG Require Import CaseFormat ProtoWireRef ThriftWire Json Num Base64 JsonProofs NumProofs Check18.
+From DG Require Import CaseFormat ProtoWireRef ThriftWire Json Num Base64 JsonProofs NumProofs J2T Check18 Check18b.
 Import ListNotations.
 Local Open Scope Z_scope.
 
@@ -362,4 +362,33 @@ Proof.
   destruct rest; [|discriminate H]. injection H as ->.
   unfold json_parse. cbn [length]. rewrite pv_str.
   rewrite (parse_str_mono _ _ _ E). reflexivity.
+Qed.
+
+(* ------------------------------------------------------------------------------------------------ 1807: agreement with the model *)
+(* a VOk verdict of the model comparison means: every implementation produced exactly the model's bytes — hence (by
+   agree_with_model_implies_pairwise) the same bytes as every other — or the model rejects and everybody rejected *)
+Lemma judge_1807_ok : forall m known nats p,
+  judge_1807 m known nats p = VOk ->
+  match m with
+  | Ok bs => forall r, In r (p :: nats) -> fst r = 0 /\ snd r = bs
+  | Err _ => forall r, In r (p :: nats) -> fst r <> 0
+  end.
+Proof.
+  intros m known nats p H. unfold judge_1807 in H. destruct m as [bs|c].
+  - destruct (forallb (out_is bs) (p :: nats)) eqn:E.
+    + intros r Hin. rewrite forallb_forall in E. apply out_is_spec. apply E. exact Hin.
+    + destruct (known && forallb (out_is bs) nats); discriminate H.
+  - destruct (forallb (fun r => negb (fst r =? 0)) (p :: nats)) eqn:E; [|discriminate H].
+    intros r Hin. rewrite forallb_forall in E. specialize (E _ Hin). apply negb_true_iff in E. apply Z.eqb_neq in E. exact E.
+Qed.
+
+Lemma judge_1807_ok_pairwise : forall bs known nats p,
+  judge_1807 (Ok bs) known nats p = VOk ->
+  forall a b, In a (p :: nats) -> In b (p :: nats) -> snd a = snd b.
+Proof.
+  intros bs known nats p H a b Ha Hb. pose proof (judge_1807_ok _ _ _ _ H) as Hm. cbn in Hm.
+  apply (agree_with_model_implies_pairwise bs (map snd (p :: nats))).
+  - rewrite Forall_forall. intros o Ho. apply in_map_iff in Ho. destruct Ho as (r & <- & Hr). apply (Hm r Hr).
+  - apply in_map. exact Ha.
+  - apply in_map. exact Hb.
 Qed.
